@@ -6,6 +6,7 @@ package sim
 import (
 	"fmt"
 	"math/big"
+	"time"
 
 	"github.com/bnb-chain/tss-lib/v2/common"
 	eckeygen "github.com/bnb-chain/tss-lib/v2/ecdsa/keygen"
@@ -94,12 +95,13 @@ type Net struct {
 	StepN   int
 	nextDel int
 
-	UseParsed func(d *Delivery) bool // choose Update(parsed) instead of UpdateFromBytes for this delivery
-	OnEmit    func(e *Emit)          // called for every emitted message (before deliveries are created)
-	OnCreate  func(d *Delivery) bool // called for every created delivery; return false to drop it
-	AfterStep func(s Step)           // invariant hook
-	EmitErrs  []string               // routing problems noticed while resolving recipients
-	PreStart  int                    // deliveries made to a party before its Start
+	UseParsed  func(d *Delivery) bool // choose Update(parsed) instead of UpdateFromBytes for this delivery
+	OnEmit     func(e *Emit)          // called for every emitted message (before deliveries are created)
+	OnCreate   func(d *Delivery) bool // called for every created delivery; return false to drop it
+	AfterStep  func(s Step)           // invariant hook
+	EmitErrs   []string               // routing problems noticed while resolving recipients
+	PreStart   int                    // deliveries made to a party before its Start
+	CallBudget time.Duration          // watchdog for a single party call (0: DefaultCallBudget)
 }
 
 func (n *Net) nodeByID(id *tss.PartyID) int {
@@ -209,10 +211,35 @@ func (n *Net) after(s Step) {
 	n.StepN++
 }
 
+// OnHang, when set, is called (from a timer goroutine) when a single Start / Update call of a party has not
+// returned after the net's call budget: the calling goroutine is stuck inside the library, so the callback
+// has to record the case and end the process itself.
+var OnHang func(desc string)
+
+// DefaultCallBudget is far above anything a single party call needs (the slowest legitimate call, an ECDSA
+// round with all proofs for five parties, takes a few seconds even on a loaded machine). Nets whose parties
+// generate their own pre-parameters inside a call raise CallBudget.
+var DefaultCallBudget = 5 * time.Minute
+
+func (n *Net) guarded(desc func() string, f func()) {
+	if OnHang == nil {
+		f()
+		return
+	}
+	b := n.CallBudget
+	if b == 0 {
+		b = DefaultCallBudget
+	}
+	t := time.AfterFunc(b, func() { OnHang(desc() + fmt.Sprintf(" did not return within %v", b)) })
+	defer t.Stop()
+	f()
+}
+
 func (n *Net) Start(i int) Step {
 	nd := n.Nodes[i]
 	nd.Started = true
-	err := nd.P.Start()
+	var err *tss.Error
+	n.guarded(func() string { return fmt.Sprintf("Start() of party %d", i) }, func() { err = nd.P.Start() })
 	if err != nil {
 		nd.StartErr = err
 		nd.Errs = append(nd.Errs, err)
@@ -230,17 +257,24 @@ func (n *Net) doDeliver(d *Delivery, kind StepKind) Step {
 		n.PreStart++
 	}
 	if !nd.Dead {
-		if n.UseParsed != nil && d.Parsed != nil && n.UseParsed(d) {
-			// re-parse from bytes so that the receiving party never shares the sender's message object
-			pm, perr := tss.ParseWireMessage(d.Bytes, d.From, d.Bcast)
-			if perr != nil {
-				err = nd.P.WrapError(perr)
-			} else {
-				ok, err = nd.P.Update(pm)
+		n.guarded(func() string {
+			if d.E == nil {
+				return fmt.Sprintf("Update of party %d with an injected message", d.To)
 			}
-		} else {
-			ok, err = nd.P.UpdateFromBytes(d.Bytes, d.From, d.Bcast)
-		}
+			return fmt.Sprintf("Update of party %d with a %s from party %d", d.To, d.E.Type, d.E.From)
+		}, func() {
+			if n.UseParsed != nil && d.Parsed != nil && n.UseParsed(d) {
+				// re-parse from bytes so that the receiving party never shares the sender's message object
+				pm, perr := tss.ParseWireMessage(d.Bytes, d.From, d.Bcast)
+				if perr != nil {
+					err = nd.P.WrapError(perr)
+				} else {
+					ok, err = nd.P.Update(pm)
+				}
+			} else {
+				ok, err = nd.P.UpdateFromBytes(d.Bytes, d.From, d.Bcast)
+			}
+		})
 	}
 	d.Count++
 	if err != nil {
